@@ -167,6 +167,7 @@ type checker struct {
 	bounds      []string
 	execCap     time.Duration
 	onlyArgs    string
+	stopEarly   bool
 }
 
 func main() {
@@ -206,6 +207,7 @@ func cmdCheck(args []string) int {
 	dump := fs.String("dump", "", "directory to dump failing/unknown VC scripts")
 	cpuprof := fs.String("cpuprofile", "", "write cpu profile")
 	args1 := fs.String("args", "", "run only this argument tuple, e.g. 1,0")
+	stopEarly := fs.Bool("stop-on-violation", false, "stop after the first run with a confirmed violation")
 	fs.Parse(args)
 	if t := os.Getenv("VERIF_TIER"); t != "" && *tier == "" {
 		*tier = t
@@ -236,6 +238,7 @@ func cmdCheck(args []string) int {
 		defer pprof.StopCPUProfile()
 	}
 	c.onlyArgs = *args1
+	c.stopEarly = *stopEarly
 	code := c.run(*only, *trace, *dump)
 	if !*noEvidence {
 		c.writeEvidence(code)
@@ -339,6 +342,9 @@ func (c *checker) run(only string, trace bool, dump string) (code int) {
 	for _, r := range runs {
 		if code := c.oneRun(r, pool, dump); code == 2 {
 			return 2
+		}
+		if c.stopEarly && len(c.violations) > 0 {
+			break
 		}
 	}
 	// summary
